@@ -23,6 +23,7 @@ type CaseRec struct {
 	Exp any  `json:"exp,omitempty"`
 	Out any  `json:"out,omitempty"`
 	Arg any  `json:"arg,omitempty"`
+	Alt any  `json:"alt,omitempty"` // as-built prediction: recognises a LISTED known finding only
 }
 
 type CaseReplay struct {
@@ -90,7 +91,8 @@ func cmdCases(args []string) {
 	enc := json.NewEncoder(of)
 	sc := bufio.NewScanner(f)
 	sc.Buffer(make([]byte, 1<<20), 1<<28)
-	n, bad := 0, 0
+	n, bad, known := 0, 0, 0
+	var knownSample *CaseReplay
 	distinct := map[string]bool{}
 	var samples []any
 	for sc.Scan() {
@@ -106,7 +108,16 @@ func cmdCases(args []string) {
 		}
 		ej, _ := json.Marshal(exp)
 		distinct[string(ej)] = true
-		if !reflect.DeepEqual(normEmpty(exp), normEmpty(got)) {
+		if !reflect.DeepEqual(normEmpty(exp), normEmpty(got)) && c.Alt != nil && reflect.DeepEqual(normEmpty(c.Alt), normEmpty(got)) {
+			// wrong, but exactly the listed as-built outcome for this input
+			known++
+			if knownSample == nil {
+				gj, _ := json.Marshal(got)
+				knownSample = &CaseReplay{Property: *prop, Kind: "case", Fn: *fn, In: c.In, Arg: c.Arg, Exp: exp, Got: got,
+					Class:  fmt.Sprintf("%s/%s/asbuilt", *prop, *fn),
+					Detail: []string{fmt.Sprintf("expected %s", ej), fmt.Sprintf("observed (= as-built prediction) %s", gj)}}
+			}
+		} else if !reflect.DeepEqual(normEmpty(exp), normEmpty(got)) {
 			bad++
 			if bad <= *maxrep {
 				gj, _ := json.Marshal(got)
@@ -118,7 +129,10 @@ func cmdCases(args []string) {
 			samples = append(samples, map[string]any{"in": c.In, "arg": c.Arg, "result": got})
 		}
 	}
-	writeJSON(*summ, map[string]any{"cases": n, "mismatches": bad, "distinct_expected": len(distinct), "samples": samples})
+	if knownSample != nil {
+		_ = enc.Encode(knownSample)
+	}
+	writeJSON(*summ, map[string]any{"cases": n, "mismatches": bad, "known_asbuilt": known, "distinct_expected": len(distinct), "samples": samples})
 }
 
 // normEmpty makes nil / empty list comparable
